@@ -151,3 +151,78 @@ def replay(eng, ob, model, seed):
     return {"failed_on_real_code": True, "input": {"scenario": problems[0].split(":")[0]}, "observed": problems,
             "candidates_tried": 9, "witness_class": wc,
             "call": "gwf.backends.local.Scheduler(...) with real shell processes under asyncio"}
+
+
+async def server_case(problems):
+    """C14: misbehaving clients next to a healthy one, over real sockets"""
+    import json
+    from gwf.backends.local import Scheduler, Server, LocalStatus as L
+    d = pathlib.Path(tempfile.mkdtemp(prefix="gwfverif-"))
+    try:
+        (d / ".gwf" / "logs").mkdir(parents=True)
+        s = Scheduler(working_dir=d, max_cores=2)
+        srv = Server(s)
+        srv.server = await asyncio.start_server(srv.handle_connection, "127.0.0.1", 0)
+        port = srv.server.sockets[0].getsockname()[1]
+
+        async def talk(lines, read=0, close=True):
+            r, w = await asyncio.open_connection("127.0.0.1", port)
+            out = []
+            for l in lines:
+                w.write(l)
+                await w.drain()
+            for _ in range(read):
+                out.append(json.loads(await asyncio.wait_for(r.readline(), 3)))
+            if close:
+                w.close()
+            return out
+
+        def enq(name, script, deps=()):
+            return (json.dumps({"__kind__": "enqueue_task", "name": name, "script": script, "time_limit": None,
+                                "working_dir": str(d), "deps": list(deps)}) + "\n").encode()
+
+        good = await talk([enq("a", "sleep 0.3")], read=1)
+        ta = good[0]["tid"]
+        for bad in ([b"not json\n"], [b"[1, 2]\n"], [b'{"__kind__": "cancel_task", "tid": 999}\n'],
+                    [b'{"__kind__": "enqueue_task"}\n'], [b'{"__kind__": "nosuch", "x": 1}\n'], [b'{"no_kind": 1}\n'], []):
+            await talk(bad)
+            await asyncio.sleep(0.02)
+        if not srv.server.is_serving():
+            problems.append("server: stopped serving after malformed / incomplete / unknown requests")
+            return
+        more = await talk([enq("b", "exit 0", [ta]), enq("c", "exit 0")], read=2)
+        ids = [ta] + [m["tid"] for m in more]
+        if len(set(ids)) != len(ids):
+            problems.append(f"server: task ids are not unique: {ids}")
+        await settle(s, ids)
+        st = await talk([b'{"__kind__": "get_task_states"}\n'], read=1)
+        got = {int(k): v for k, v in st[0]["tasks"].items()}
+        want = {k: v.name for k, v in s.task_states.items()}
+        if got != want:
+            problems.append(f"server: state query returned {got}, the pool's table is {want}")
+        for t in ids:
+            if not final(s.task_states[t]):
+                problems.append(f"server: accepted task {t} did not reach a final state next to misbehaving clients")
+        srv.server.close()
+        await srv.server.wait_closed()
+    finally:
+        shutil.rmtree(d, ignore_errors=True)
+
+
+def replay_server(eng, ob, model, seed):
+    import logging
+    problems = []
+    logging.disable(logging.CRITICAL)
+    try:
+        loop = asyncio.new_event_loop()
+        loop.set_exception_handler(lambda l, c: None)      # handler exceptions of bad clients are expected
+        loop.run_until_complete(asyncio.wait_for(server_case(problems), 30))
+        loop.close()
+    except Exception as e:
+        problems.append(f"server scenario raised {type(e).__name__}: {e}")
+    finally:
+        logging.disable(logging.NOTSET)
+    if not problems:
+        return {"failed_on_real_code": False, "candidates_tried": 1, "bound": "7 misbehaving clients, 3 tasks"}
+    return {"failed_on_real_code": True, "input": {"scenario": "misbehaving clients"}, "observed": problems,
+            "candidates_tried": 1, "witness_class": "server", "call": "real Server over 127.0.0.1 sockets"}
